@@ -431,9 +431,7 @@ func (c *FnCtx) exitChecks(p *Path, fc *FuncContract, env map[string]Val, entry 
 		}
 		// a witness object allocated before the call whose content differs
 		w := c.fresh("frame_w", "Int")
-		al := sym("H0 $alloc")
-		c.declare(al, "(Array Int Bool)")
-		conj := []string{fmt.Sprintf("(select %s %s)", al, w)}
+		conj := []string{inAl(c.allocT0(), w)}
 		for _, r := range refs {
 			conj = append(conj, fmt.Sprintf("(not (= %s %s))", w, r))
 		}
